@@ -48,6 +48,13 @@ def check (j : Json) : Except String Verdict := do
   let errs ← jNat obs "errs"
   let panics ← jNat obs "panics"
   let nontrivial := ws.length ≥ 2 && (ws.any (· = 0) || ws.eraseDups.length > 1)
+  -- picks that landed on a cluster the matched route does not list (another route of the table): the matched route's own
+  -- outcome - a pick among its clusters, or a routing error - was bypassed
+  let foreign := jNatD obs "foreign" 0
+  if foreign > 0 then
+    return { nontrivial := true
+             mismatch := some s!"ws={ws}: {foreign} of {n} calls were sent to a cluster the matched route does not list (model: its clusters or a routing error)"
+             specfail := some s!"C09.error_not_arbitrary_pick ws={ws}: {foreign} of {n} calls matched by this route were sent to a cluster of ANOTHER route of the table (the matched route lists weights {ws}: its outcome is a pick among them or a routing error, never a fall-through)" }
   return { nontrivial := nontrivial
            specfail := (Spec.C09.holds ws n counts errs panics).map (fun m => s!"C09.pick_count/zero_never ws={ws}: {m}")
            mismatch := modelVerdict Generated.pick ws n counts errs panics }
